@@ -34,6 +34,7 @@ type Sim struct {
 	trigs   []trigger
 	onYield func(site int) // scheduler or fine-grained invariant hook
 	raceLax bool
+	quiet   int // >0: logging / sampling code is running; nothing may be drawn or counted
 }
 
 type OrderMode int
@@ -53,7 +54,9 @@ type trigger struct {
 // StepBudget is the panic value raised when a run exceeds its step limit.
 type StepBudget struct{ Steps uint64 }
 
-func (s StepBudget) Error() string { return fmt.Sprintf("step budget exceeded after %d steps", s.Steps) }
+func (s StepBudget) Error() string {
+	return fmt.Sprintf("step budget exceeded after %d steps", s.Steps)
+}
 
 var active atomic.Pointer[Sim]
 
@@ -76,6 +79,15 @@ func (s *Sim) At(step uint64, f func()) {
 	}
 }
 
+// Quiet runs f (trace / sample rendering) without drawing from any tape, counting any
+// event or advancing the clock: logging must not perturb the schedule.  Map iterations
+// inside f are served in canonical order.
+func (s *Sim) Quiet(f func()) {
+	s.quiet++
+	defer func() { s.quiet-- }()
+	f()
+}
+
 // OnYield installs a hook that runs at every yield point.
 func (s *Sim) OnYield(f func(site int)) { s.onYield = f }
 
@@ -94,6 +106,9 @@ func Yield(site int) {
 		if s.onYield != nil {
 			s.onYield(site)
 		}
+		return
+	}
+	if s.quiet > 0 {
 		return
 	}
 	s.Steps++
@@ -135,6 +150,9 @@ func (s *Sim) fire() {
 // perm returns the order in which n canonically sorted keys are visited, or nil for the
 // canonical order.
 func (s *Sim) perm(site, n int) []int {
+	if s.quiet > 0 {
+		return nil
+	}
 	s.IterEvents++
 	var p []int
 	switch s.OrderMode {
